@@ -415,9 +415,20 @@ def other(ctx, p, cfg):
             pixels = tuple(np.array([c[d] for c in px_cells]) for d in range(len(p.shape)))
             ntid, ncus = z3.Int("new_tid"), z3.Int("new_cus")
             force = bool(SBool(z3.Bool("force")))
-            ctx.input("args", dict(n=n, frame=f, pixels=[list(c) for c in px_cells], tid=ntid, cus=ncus, force=force))
+            attrs = {TK: f, TID: SInt(ntid), CUS: SInt(ncus)}
+            # the caller may also pass values for mask-derived features (a click position, a dict copied from
+            # another node): they must not survive - the stored value is the one measured from the mask
+            given = None
+            if ctx.choose(2, "supply_measures") == 1:
+                gp = [z3.Real(f"given_pos{d}") for d in range(len(p.shape) - 1)]
+                ga = z3.Real("given_area")
+                attrs[POS] = [SReal(x) for x in gp]
+                attrs["area"] = SReal(ga)
+                given = dict(pos=gp, area=ga)
+            ctx.input("args", dict(n=n, frame=f, pixels=[list(c) for c in px_cells], tid=ntid, cus=ncus, force=force,
+                                   given=given))
             info["new"] = n
-            act = UserAddNode(tr, n, {TK: f, TID: SInt(ntid), CUS: SInt(ncus)}, pixels=pixels, force=force)
+            act = UserAddNode(tr, n, attrs, pixels=pixels, force=force)
         else:
             raise AssertionError(kind)
     except Unsupported:
@@ -601,6 +612,25 @@ def _harness(ctx, cfg):
             ctx.oblige("C06.lookups_after_redo", And(S.c06_lookups(S3, k, True), S3.wf, S.c06_fresh(S3, True)), "C06")
         if want("C20"):
             ctx.oblige("C20.undo_one_refresh", len(e2) == 1 and len(e3) == 1, "C20")
+        if cfg.get("twice", True) and want("C01"):
+            # the same history entry inverted a second time (e u r u r)
+            try:
+                tr.undo()
+                S4 = Snap(p, k)
+                seg4 = seg.c.copy()
+                tr.redo()
+                S5 = Snap(p, k)
+                seg5 = seg.c.copy()
+            except Unsupported:
+                raise
+            except Exception as e:
+                ctx.tag(f"second_inverse_raised:{type(e).__name__}")
+                ctx.oblige("C01.inverse_applies_again", False, "C01")
+                return
+            ctx.oblige("C01.second_undo", And(S.same_graph(S0, S4), S.same_attrs(S0, S4), seg_same(p.seg0, seg4)),
+                       "C01")
+            ctx.oblige("C01.second_redo", And(S.same_graph(S1, S5), S.same_attrs(S1, S5), seg_same(seg1, seg5)),
+                       "C01")
 
 
 def rp_consistent_snap(p, Sx, sarr):
